@@ -90,6 +90,7 @@ func TestStringModelsExhaustive(t *testing.T) {
 			check("HasPrefix", evalBool(StrHasPrefix(sa, sb), model), strings.HasPrefix(a, b))
 			check("HasSuffix", evalBool(StrHasSuffix(sa, sb), model), strings.HasSuffix(a, b))
 			check("Index", evalInt(StrIndex(sa, sb), model), int64(strings.Index(a, b)))
+			check("Compare", evalInt(intrinsics["strings.Compare"](&Machine{}, nil, []Value{sa, sb}).(*Term), model), int64(strings.Compare(a, b)))
 			// mixed concrete / symbolic
 			check("==c", evalBool(StrEq(sa, ConcStr(b)), model), a == b)
 			check("+c", evalStr(StrConcat(ConcStr(a), sb), model), a+b)
